@@ -56,19 +56,20 @@ type KMFinding struct {
 }
 
 type KeyMonSummary struct {
-	KeyCalls              int            `json:"key_calls"`              // distinct (constructor, arguments) evaluated
-	SubspaceCalls         int            `json:"subspace_calls"`         // distinct (subspace function, arguments) evaluated
-	DistinctKeyBytes      int            `json:"distinct_key_bytes"`     // distinct results of the constructors
-	CollisionComparisons  int            `json:"collision_comparisons"`  // every key result against all earlier ones (hash index): one per distinct call
-	EqualBytesPairs       int            `json:"equal_bytes_pairs"`      // pairs of distinct calls with equal bytes that were judged
-	OutOfDomainCollisions int            `json:"out_of_domain_collisions"` // of these: outside the injective domain (K5 class, 0x00 in names, ...): not reported
-	ScanComparisons       int            `json:"scan_comparisons"`       // (subspace call, key call of the same family) pairs decided: prefix test + subject comparison
-	ScanPrefixMatches     int            `json:"scan_prefix_matches"`    // of these: the subspace is a prefix of the key
+	KeyCalls              int            `json:"key_calls"`                 // distinct (constructor, arguments) evaluated
+	SubspaceCalls         int            `json:"subspace_calls"`            // distinct (subspace function, arguments) evaluated
+	DistinctKeyBytes      int            `json:"distinct_key_bytes"`        // distinct results of the constructors
+	CollisionComparisons  int            `json:"collision_comparisons"`     // every key result against all earlier ones (hash index): one per distinct call
+	EqualBytesPairs       int            `json:"equal_bytes_pairs"`         // pairs of distinct calls with equal bytes that were judged
+	OutOfDomainCollisions int            `json:"out_of_domain_collisions"`  // of these: outside the injective domain (K5 class, 0x00 in names, ...): not reported
+	ScanComparisons       int            `json:"scan_comparisons"`          // (subspace call, key call of the same family) pairs decided: prefix test + subject comparison
+	ScanPrefixMatches     int            `json:"scan_prefix_matches"`       // of these: the subspace is a prefix of the key
 	OutOfDomainOvermatch  int            `json:"out_of_domain_overmatches"` // over-matches outside the exact domain (K5 class, raw earned prefix, 0x00 in names): not reported
-	ScanCompleteness      int            `json:"scan_completeness_checks"` // subspace(fields of the key) evaluated and tested to be a prefix of the key
-	CrossFamilyTests      int            `json:"scan_cross_family_tests"`  // (subspace call, key of another family) pairs decided
+	ScanCompleteness      int            `json:"scan_completeness_checks"`  // subspace(fields of the key) evaluated and tested to be a prefix of the key
+	CrossFamilyTests      int            `json:"scan_cross_family_tests"`   // (subspace call, key of another family) pairs decided
 	FamilyPrefixTests     int            `json:"family_prefix_tests"`
-	CraftedCases          int            `json:"crafted_cases"` // cases added by pkCrafted (boundary shifts, bech32 extensions, prefix-related values)
+	BechExtensions        int            `json:"bech32_extension_addresses"` // distinct addresses P' built and verified by kmBechExtend that occur in the cases
+	CraftedCases          int            `json:"crafted_cases"`              // cases added by pkCrafted (boundary shifts, bech32 extensions, prefix-related values)
 	PerKind               map[string]int `json:"findings_per_kind"`
 	NFindings             int            `json:"n_findings"`
 	Findings              []KMFinding    `json:"findings"` // at most kmMaxPerClass per (kind, functions), kmMaxFindings in all
@@ -468,6 +469,7 @@ func (m *keyMon) observe(fi int, args []pkArg, result string) {
 // finish runs the scan-exactness and family-prefix checks over everything observed
 func (m *keyMon) finish() *KeyMonSummary {
 	m.sum.KeyCalls = len(m.keys)
+	m.sum.BechExtensions = len(kmBechBuilt)
 	m.sum.SubspaceCalls = len(m.subs)
 	m.sum.DistinctKeyBytes = len(m.byRes)
 
@@ -588,6 +590,8 @@ func (m *keyMon) finish() *KeyMonSummary {
 // ---------------------------------------------------------------------------------------
 // crafted arguments
 
+var kmBechBuilt = map[string]bool{}
+
 const kmBech32Charset = "qpzry9x8gf2tvdw0s3jn54khce6mua7l"
 
 // kmBechExtend: for a 20-byte address P (exactly 32 five-bit symbols) the 24-byte address P ++ 4 bytes whose
@@ -625,6 +629,7 @@ func kmBechExtend(p []byte) []byte {
 	if err != nil || !bytes.Equal(back, out) || !strings.HasPrefix(es, s) || es == s {
 		return nil
 	}
+	kmBechBuilt[string(out)] = true
 	return out
 }
 
